@@ -2,6 +2,7 @@ package verif
 
 import (
 	"context"
+	"io"
 	"net"
 	"net/http"
 	"net/http/httptest"
@@ -24,6 +25,21 @@ type WSResponseWriter struct {
 func (w *WSResponseWriter) Header() http.Header         { return w.Hdr }
 func (w *WSResponseWriter) Write(b []byte) (int, error) { return len(b), nil }
 func (w *WSResponseWriter) WriteHeader(s int)           { w.Status = s }
+
+// TimeoutBody is what a server sees of a request body whose client put a time limit on the whole
+// exchange (http.Client.Timeout): once the limit has expired the body ends with
+// io.ErrUnexpectedEOF. Only the engine constructs it (natively the real net/http does this).
+type TimeoutBody struct {
+	R       io.Reader
+	Expired *bool
+}
+
+func (t *TimeoutBody) Read(p []byte) (int, error) {
+	if *t.Expired {
+		return 0, io.ErrUnexpectedEOF
+	}
+	return t.R.Read(p)
+}
 
 // Listener is a scripted WebSocket peer endpoint: clients created with its URL
 // connect to PeerConns driven by the harness.
